@@ -1,4 +1,9 @@
+import os, re
 from kanirun import H, FAST
+from mirsym import mir, symex, smt
+from mirsym.symex import bvconst, mk_and, mk_not, mk_eq, V, bv, boolean
+from mirsym_run import Q
+from common import *
 
 LEVEL = "model_checking"
 EXPLANATION = ("Bounded model checking (Kani/CBMC) of the real deduplication::Chunker::{new,next,next_block,finish} over "
@@ -25,3 +30,114 @@ KANI = [
     H("hk_dedup", "c04::first_chunk_min16_len24", "real gear hash: first chunk of next(D,f) equals the reference rule (24 hashed bytes)", unwind=30, flags=FAST, tier="thorough",
       covers=["content-defined cut inside the data"], functions=_f, stubs=_st, bounds="24 symbolic bytes through the real gear table", timeout=5400, mem_gb=24),
 ]
+
+
+# ---- mirsym Mode A over Chunker::next (any target size, any pre-state satisfying the invariant) ---------------------
+
+def build_next(fns):
+    f = mir.find_fn(fns, r"chunking::<impl at [^>]*>::next$")
+    src = open(os.path.join(REPO, "deduplication/src/chunking.rs")).read()
+    body = src[src.index("pub struct Chunker"):]
+    body = body[body.index("{") + 1:body.index("}")]
+    names = re.findall(r"^\s+(?:pub )?(\w+):", body, re.M)
+    fld = {n: i for i, n in enumerate(names)}
+    for need in ("minimum_chunk", "maximum_chunk", "cur_chunk_len"):
+        if need not in fld:
+            raise LookupError("Chunker field %s not found" % need)
+    models = dict(symex.STD_MODELS)
+    s = symex.Sym(f, prefix="nx.", models=models, max_visits=1)
+    # next_match: bind the Option's discriminant and payload to fresh symbols with the contract above
+    nm_dest = None
+    for bb in f.order:
+        t = mir.parse_term(f.blocks[bb][1])
+        if t["kind"] == "call" and re.search(r"Hasher::<.*>::next_match$|Hasher::next_match$", t["func"]):
+            nm_dest = t["dest"].strip()
+    if nm_dest is None:
+        raise LookupError("Chunker::next does not call next_match")
+
+    def m_nm(sym, path, args, dty):
+        sl = path.store.get("__last_slice")
+        b = sym.havoc("usize", "boundary")
+        found = sym.havoc("bool", "found")
+        if sl is not None:
+            ln = "(bvsub %s %s)" % (sl.items[1].t, sl.items[0].t)
+            path.pc.append("(=> %s (and (bvuge %s %s) (bvule %s %s)))" % (found.t, b.t, bvconst(1, 64), b.t, ln))
+        path.store["discr(%s)" % nm_dest] = bv("(ite %s %s %s)" % (found.t, bvconst(1, 64), bvconst(0, 64)), 64)
+        path.store["%s#vSome.0" % nm_dest] = b
+        path.store["__nm"] = V("tuple", items=[found, b, sl.items[0], sl.items[1]] if sl is not None else [found, b])
+        return V("opaque", t="nm")
+    models[r"Hasher::<.*>::next_match$|Hasher::next_match$"] = m_nm
+    paths = [p for p in s.run("bb0", max_paths=5000) if p.end == "return"]
+    if not paths:
+        raise LookupError("no returning path")
+    p0 = symex.Path()
+    p0.decls = s.decls
+    F = lambda name: s.load(p0, symex.parse_place("((*_1).%d: usize)" % fld[name]), "usize").t
+    cur0, mn, mx = F("cur_chunk_len"), F("minimum_chunk"), F("maximum_chunk")
+    nbytes = None
+    sc = smt.Script("c04_chunker_next_step")
+    # representation invariant of a chunker between calls, and the configuration constraints asserted by Chunker::new
+    inv = ["(bvult %s %s)" % (cur0, mx), "(bvult %s %s)" % (mn, mx), "(bvult %s %s)" % (mx, bvconst(1 << 40, 64))]
+    n_chunk = n_plain = 0
+    for i, p in enumerate(paths):
+        cur1 = s.load(p, s.resolve(p, symex.parse_place("((*_1).%d: usize)" % fld["cur_chunk_len"])), "usize").t
+        ret = p.store.get("_0")
+        if ret is None or ret.kind != "tuple" or ret.items[1].kind != "bv":
+            raise LookupError("return value of Chunker::next not recognised")
+        consumed = ret.items[1].t
+        n = s.load(p, ("local", symex.parse_place(f.debug["n_bytes"][0])[1]), "usize").t
+        made = any(re.search(r"compute_data_hash$", e[0]) for e in p.events)
+        sets = [j for j, e in enumerate(p.events) if re.search(r"Hasher::<.*>::set_hash$|Hasher::set_hash$", e[0])]
+        nms = [j for j, e in enumerate(p.events) if re.search(r"next_match$", e[0])]
+        base = inv + p.pc
+        tag = "[path %d: %s]" % (i, "chunk" if made else "no chunk")
+        sc.query("bytes consumed <= bytes given %s" % tag, base + [mk_not("(bvule %s %s)" % (consumed, n))])
+        if made:
+            n_chunk += 1
+            sc.query("a new chunk starts at length 0 %s" % tag, base + [mk_not(mk_eq(cur1, bvconst(0, 64)))])
+            ok_reset = bool(sets) and (not nms or sets[-1] > nms[-1]) and p.events[sets[-1]][1][1] == bvconst(0, 64)
+            sc.query("the rolling hash is reset to 0 after the chunk is cut %s" % tag, base + (["false"] if ok_reset else ["true"]))
+        else:
+            n_plain += 1
+            sc.query("without a cut the chunk length grows by the bytes consumed %s" % tag, base + [mk_not(mk_eq(cur1, "(bvadd %s %s)" % (cur0, consumed)))])
+            sc.query("without a cut all bytes are consumed %s" % tag, base + [mk_not(mk_eq(consumed, n))])
+            sc.query("without a cut the chunk stays below the maximum (invariant preserved) %s" % tag, base + [mk_not("(bvult %s %s)" % (cur1, mx))])
+            sc.query("the rolling hash is not reset without a cut %s" % tag, base + (["true"] if sets else ["false"]))
+        nm = p.store.get("__nm")
+        if nm is not None and len(nm.items) == 4:
+            found, b, st, en = [x.t for x in nm.items]
+            sc.query("hashing never starts before index min-64-1 of the chunk (or the call ends first) %s" % tag,
+                     base + [mk_not("(or (bvuge (bvadd (bvadd %s %s) %s) %s) (= %s %s))" % (cur0, st, bvconst(65, 64), mn, st, n))])
+            sc.query("hashing never reads beyond the maximum chunk size %s" % tag, base + [mk_not("(bvule (bvadd %s %s) %s)" % (cur0, en, mx))])
+            sc.query("scanning starts where the skip ended, no byte is scanned twice %s" % tag,
+                     base + [mk_not("(or (= %s %s) (= (bvadd (bvadd %s %s) %s) %s))" % (st, bvconst(0, 64), cur0, st, bvconst(65, 64), mn))])
+            if made:
+                sc.query("a content-defined cut consumes exactly up to the reported boundary; otherwise the cut is at the maximum or the final flush %s" % tag,
+                         base + [mk_not("(or (and %s (= %s (bvadd %s %s))) (= (bvadd %s %s) %s) (= %s %s))" % (found, consumed, st, b, cur0, consumed, mx, consumed, n))])
+            else:
+                sc.query("no cut only if the hash found no boundary %s" % tag, base + [found])
+        for (pc, cond, msg, bb) in p.vcs:
+            sc.query("no panic: %s @%s %s" % (msg[:40], bb, tag), inv + pc + [mk_not(cond)])
+        sc.query("witness: path feasible %s" % tag, base, expect="sat", kind="witness")
+    if n_chunk == 0 or n_plain == 0:
+        raise LookupError("Chunker::next shape not recognised (%d chunk paths, %d plain paths)" % (n_chunk, n_plain))
+    sc.declare(s.decls)
+    return [sc]
+
+
+def replay_ref(model, fnd, prop):
+    env = base_env()
+    env["CARGO_TARGET_DIR"] = os.path.join(BUILD, "replay_target")
+    rc, out = sh(["cargo", "test", "--offline", "--test", "c04_reference_chunker"], cwd=os.path.join(VERIF, "replay"), env=env, timeout=2400,
+                 log=os.path.join(LOGS, "replay_c04.log"))
+    path = os.path.join(VERIF, "replay", "tests", "c04_reference_chunker.rs")
+    if "test result: FAILED" in out and "C04 violated" in out:
+        m = re.search(r"C04 violated: [^\n]*", out)
+        return True, path, m.group(0)[:240] if m else "native replay fails"
+    if re.search(r"test result: ok. [1-9]\d* passed", out):
+        return False, path, "native replay passes: chunker equals the reference gear-CDC rule on all tried streams and partitions"
+    return None, path, "native replay inconclusive (rc=%s)" % rc
+
+
+SMT = [Q("c04_next_step", "one call of Chunker::next from any state satisfying the invariant, any target size, any rolling-hash answer", "deduplication", build_next,
+         functions=["deduplication::chunking::Chunker::next"], bounds="one call from an arbitrary state; all 64-bit sizes with cur < max, min < max < 2^40", replay=replay_ref)]
